@@ -77,6 +77,12 @@ def menu_for(tier):
         m.append(StoreAlgo(0, 0, add="sha224", add_canon="sha224", size=len(w.contents[0]) + 1, invalid=True,
                            tagname=", additional=sha224, wrong size", roles="store_object(additional, wrong size)"))
         m.append(StoreAlgo(1, 0))
+        # a later verdict call under another algorithm leaves what store_object reported as it was
+        for canon in ("sha224", "blake2b"):
+            ck = hashlib.new(canon, w.contents[0]).hexdigest()
+            m.append(step.DeleteIfInvalid(0, ck, canon, len(w.contents[0]), False, ", correct, %s" % canon))
+            m.append(step.DeleteIfInvalid(0, ("0" if ck[0] != "0" else "1") + ck[1:], canon, len(w.contents[0]), True,
+                                          ", wrong checksum, %s" % canon))
         if w.NK > 2:
             # a multi-block content (> 64 KiB, not a multiple of any usual buffer size)
             for canon in ALGOS12:
